@@ -624,7 +624,7 @@ pub fn run_case(line: &str, slow_ms: u128, emit: &mut dyn FnMut(String)) {
     let mut grid = true;
     let mut resized = false;
     let mut hash: u64 = 14695981039346656037;
-    let mut tok_start = std::time::Instant::now();
+    let mut tok_start = Stopwatch::start();
     let mut tok_lines = 0usize;
     let modelled = true;
     let mut items: Vec<String> = Vec::new();
@@ -636,7 +636,7 @@ pub fn run_case(line: &str, slow_ms: u128, emit: &mut dyn FnMut(String)) {
             // token boundaries are approximated by label changes; time is measured per character run of a label
         }
         if i == 0 || labels[i] != labels[i - 1] {
-            tok_start = std::time::Instant::now();
+            tok_start = Stopwatch::start();
             tok_lines = t.buf.layers[0].lines.len();
         }
         let out = t.feed(*ch);
@@ -699,7 +699,7 @@ pub fn run_case(line: &str, slow_ms: u128, emit: &mut dyn FnMut(String)) {
         }
         let last_of_token = i + 1 == chars.len() || labels[i + 1] != labels[i];
         if last_of_token {
-            let ms = tok_start.elapsed().as_millis();
+            let ms = tok_start.ms();
             let lines = t.buf.layers[0].lines.len();
             let th = t.buf.terminal_state.get_height().max(h) as usize;
             // a token may add at most a screenful of rows (macro invocations: bounded by the expansion budget instead)
